@@ -130,6 +130,9 @@ class CanSignal:
             self.scalar_type = type_map[
                 ("i" if self.signed else "u") + str(ceil_to_power_of_2(self.bit_length))
             ]
+            # short integer types (u3, i12...) have no C type of their own: the struct member uses the carrier
+            if self.data_type == ("i" if self.signed else "u") + str(self.bit_length):
+                self.data_type = self.scalar_type
         else:
             self.scalar_type = self.data_type
 
